@@ -158,29 +158,42 @@ def run(chk, facts, tier, only=None):
         chk.expect(prim_at < push_at and prim_at < insert_at, "build_type:primitive-return-first",
                    "build_type reserves a type-table slot before the `is_primitive` early return: primitives would enter the table",
                    ok_detail="is_primitive early return precedes type_map.insert and type_table.push")
-        # encode(): non-negative indices come only from type_map lookups
+        # encode(): non-negative indices come only from type_map lookups.  The scope is encode and the private helpers it calls (the three
+        # lookups may be folded into one helper); an index is *any* binding whose initialiser contains a type_map.get
         h = c.fn(r"ser::TypeSerialize::encode$")
+        from shared import with_local_callees
+        scope = [g for g, _ in with_local_callees(c, h, depth=2)]
+        for g in scope:
+            chk.analysed(g["key"])
+        getters, idx_names = [], set()
+        for g in scope:
+            gs = [n for n in method_calls(g["body"], r"^get$") if (expr_path(n["recv"]) or "").endswith("type_map")]
+            getters += gs
+            for st in nodes(g["body"], "slet"):
+                if st.get("init") is not None and any(x is y for x in walk(st["init"]) for y in gs) and st["pat"].get("k") == "bind":
+                    idx_names.add(st["pat"]["n"])
+        def mentions_idx(n):
+            return any(expr_path(x) in idx_names for a in n.get("args", []) for x in walk(a))
         bad = []
-        for n in calls(h["body"], r"leb128::write::signed$"):
-            arg = unblock(n["args"][1]) if len(n["args"]) > 1 else None
-            src = None
-            if isinstance(arg, dict) and arg.get("k") == "call" and (callee(arg) or "").endswith("::from"):
-                src = expr_path(arg["args"][0])
-            ops = variant_paths(n, OP)
-            if ops:
-                continue
-            chk.expect(src == "idx", f"encode:index-source:{n.get('ln') and 'site'}{len(bad)}",
-                       f"encode writes a type index that is not the result of a type_map lookup (found {src})",
-                       ok_detail="index operand is the `idx` bound from type_map.get")
-            bad.append(n)
-        getters = [n for n in method_calls(h["body"], r"^get$") if (expr_path(n["recv"]) or "").endswith("type_map")]
-        chk.floor("type_map lookups in encode", len(getters), 3)
-        chk.floor("type indices written by encode", len(bad), 3)
+        for g in scope:
+            for n in calls(g["body"], r"leb128::write::signed$"):
+                if variant_paths(n, OP):
+                    continue
+                arg = n["args"][1] if len(n["args"]) > 1 else None
+                srcs = {expr_path(x) for x in walk(arg)} & idx_names if arg is not None else set()
+                chk.expect(bool(srcs), f"encode:index-source:site{len(bad)}",
+                           f"encode writes a type index that is not the result of a type_map lookup",
+                           where=f"{g['span']['file']}:{n.get('ln')}", ok_detail=f"index operand is `{sorted(srcs)}` bound from type_map.get")
+                bad.append(n)
+        chk.floor("type_map lookups in encode", len(getters), 1)
         # ... and each looked-up index is written as a *signed* LEB128 (the reader takes the same position as a signed number: an unsigned
         # 64..127 would read back as a negative opcode)
-        uses = [n for n in walk(h["body"]) if n.get("k") in ("call", "mcall") and any(expr_path(x) == "idx" for a in n.get("args", []) for x in walk(a))
-                and not (callee(n) or "").endswith("::from") and not (callee(n) or "").endswith("::deref")]
-        uses = [n for n in uses if not any(u is not n and any(x is u for a in n.get("args", []) for x in walk(a)) for u in uses)]
+        uses = []
+        for g in scope:
+            us = [n for n in walk(g["body"]) if n.get("k") in ("call", "mcall") and mentions_idx(n)
+                  and not (callee(n) or "").endswith("::from") and not (callee(n) or "").endswith("::deref")]
+            uses += [n for n in us if not any(u is not n and any(x is u for a in n.get("args", []) for x in walk(a)) for u in us)]
+        chk.floor("uses of a looked-up type index in encode", len(uses), len(getters))
         for i, n in enumerate(uses):
             cal = callee(n) or ""
             okw = cal.endswith("leb128::write::signed")
